@@ -276,6 +276,41 @@ def pending_range_reset_together(prog, res):
     res.need(R, 2)
 
 
+def legacy_detection_over_gathered_bytes(prog, res):
+    """T9 (segmentation): when the first calls carry fewer bytes than a frame header, ZSTD_decompressStream gathers them in
+    headerBuffer.  A legacy frame must then be recognised from the gathered bytes (a ZSTD_isLegacy call over headerBuffer), and the
+    legacy decoder must receive them before the caller's current input: on the edge where bytes were gathered (lhSize != 0) a
+    ZSTD_decompressLegacyStream call fed from something else than the caller's `input` precedes the one fed from `input`."""
+    R = "T9.legacy-detection-over-gathered-bytes"
+    f = prog.fn("ZSTD_decompressStream")
+    det = [c for b, i, c in f.calls("ZSTD_isLegacy")]
+    if not det:
+        res.check(True, R, "no-legacy-support", f.loc, "legacy support is not compiled in this configuration", "")
+        res.need(R, 1)
+        return
+    # the detection that counts is the one whose verdict starts the legacy decoder (the version handed to ZSTD_initLegacyStream)
+    det = []
+    for b, i, c in f.calls("ZSTD_initLegacyStream"):
+        for a in c.get("a", [])[1:3]:
+            for y in f.walk_deep(a):
+                if is_call(y, "ZSTD_isLegacy"):
+                    det.append(y)
+    over_stash = [c for c in det if any(y.get("k") == "mem" and y.get("f") == "headerBuffer" for y in f.walk_resolved(c["a"][0]))]
+    res.check(bool(over_stash), R, "detection-reads-headerBuffer", f.loc, "%d of %d ZSTD_isLegacy calls look at the gathered bytes" % (len(over_stash), len(det)),
+              "ZSTD_decompressStream only looks for a legacy magic number at the start of the caller's current input: a v0.5-v0.7 frame whose first call carries 1 to 4 "
+              "bytes is refused (prefix_unknown) although the same frame decodes when the first call carries 5 bytes")
+    feeds = [(b, i, c) for b, i, c in f.calls("ZSTD_decompressLegacyStream")]
+    from_input = [(b, i) for b, i, c in feeds if strip_casts(f.resolve_x(c["a"][3])) is not None and strip_casts(f.resolve_x(c["a"][3])).get("rk") == "p"]
+    from_stash = [(b, i) for b, i, c in feeds if (b, i) not in from_input]
+    gathered = guards.truthy_edges(f, lambda c: c.get("k") == "mem" and c.get("f") == "lhSize", truth=True) + \
+        guards.rel_edges(f, lambda a: any(y.get("k") == "mem" and y.get("f") == "lhSize" for y in f.walk_resolved(a)), ">", lambda b_: const_val(strip_casts(b_)) == 0, truth=True)
+    ok = bool(from_stash) and bool(gathered) and any(any(t in f.flow([(e[1], 0)]) for t in from_stash) for e in gathered) and \
+        all(any(t in f.flow([(s_[0], s_[1] + 1)]) for t in from_input) for s_ in from_stash)
+    res.check(ok, R, "gathered-bytes-fed-first", f.loc, "on the `bytes were gathered` edge the legacy decoder is first fed from them, then from the input",
+              "ZSTD_decompressStream starts a legacy decoder on the caller's input without the bytes it gathered earlier: the frame's first bytes are lost")
+    res.need(R, 2)
+
+
 def run(tier):
     res = Result("C02", tier)
     tus, info = extract(["compress", "decompress", "deprecated", "common"])
@@ -290,6 +325,7 @@ def run(tier):
     core_decodes_in_streaming_mode(prog, res)
     empty_block_is_raw(prog, res)
     pending_range_reset_together(prog, res)
+    legacy_detection_over_gathered_bytes(prog, res)
     single_pass_shortcut(prog, res)
     from .C10 import staging_buffer          # shared clause: the staging buffer holds every unit the decoder can ask for
     staging_buffer(prog, res)
